@@ -23,7 +23,7 @@ static double ulpf(double v) {
 }
 
 static Circuit genGlobalCircuit(Rng &rng, std::string &profile) {
-  profile = rng.pick(std::vector<std::string>{"general", "nets", "manyfixed", "obstruction", "multirow", "dense", "big", "floating", "allturned", "blocked"});
+  profile = rng.pick(std::vector<std::string>{"general", "nets", "manyfixed", "obstruction", "multirow", "dense", "big", "floating", "allturned", "alltall", "blocked"});
   GenOpts o = makeProfile(rng, profile);
   o.minRowWidth4H = true;
   o.maxCells = (int)rng.pick(std::vector<int>{3, 10, 25, 60});
@@ -58,7 +58,15 @@ static void c06Case(Rng &rng, CaseResult &r) {
   }
   Circuit c = c0;
   int nLB = 0, nUB = 0, nPU = 0;
-  std::vector<int> Lx, Ly, Ux, Uy;
+  std::vector<double> Lx, Ly, Ux, Uy;  // centres of the cells at the last LowerBound / UpperBound exposure (with the sizes of that moment)
+  auto centres = [&](std::vector<double> &X, std::vector<double> &Y) {
+    X.assign(c.nbCells(), 0); Y.assign(c.nbCells(), 0);
+    for (int i = 0; i < c.nbCells(); ++i) { X[i] = c.cellX_[i] + 0.5 * pW(c, i); Y[i] = c.cellY_[i] + 0.5 * pH(c, i); }
+  };
+  // a quarter of the observing callbacks also turn some unpolarised movable cells at one point (setCellOrientation is permitted
+  // during a call): every later exposure and the returned placement must be consistent with the orientations of that time
+  int turnAt = rng.chance(0.25) ? (int)rng.range(1, 8) : -1, ncbAll = 0;
+  uint64_t turnSeed = rng.next();
   std::string cbErr, cbKey;
   auto checkFinite = [&](const char *where) {
     for (int i = 0; i < c.nbCells(); ++i) {
@@ -71,11 +79,10 @@ static void c06Case(Rng &rng, CaseResult &r) {
   };
   PlacementCallback cb = [&](PlacementStep step) {
     checkFinite(step == PlacementStep::LowerBound ? "LowerBound callback" : step == PlacementStep::UpperBound ? "UpperBound callback" : "callback");
-    if (step == PlacementStep::LowerBound) { ++nLB; Lx = c.cellX_; Ly = c.cellY_; }
+    if (step == PlacementStep::LowerBound) { ++nLB; centres(Lx, Ly); }
     else if (step == PlacementStep::UpperBound) {
       ++nUB;
-      Ux = c.cellX_;
-      Uy = c.cellY_;
+      centres(Ux, Uy);
       for (int i = 0; i < c.nbCells(); ++i) {
         if (c.cellIsFixed_[i] || c.cellWidth_[i] <= 0 || c.cellHeight_[i] <= 0) continue;
         double cx = c.cellX_[i] + 0.5 * pW(c, i), cy = c.cellY_[i] + 0.5 * pH(c, i);
@@ -85,6 +92,13 @@ static void c06Case(Rng &rng, CaseResult &r) {
       }
     } else if (step == PlacementStep::PenaltyUpdate) ++nPU;
     else if (cbErr.empty()) { cbKey = "C06:unexpected-callback-step"; cbErr = "Detailed step during global placement"; }
+    if (++ncbAll == turnAt) {
+      Rng trng(turnSeed);
+      std::vector<CellOrientation> oo = c.cellOrientation_;
+      for (int i = 0; i < c.nbCells(); ++i) if (!c.cellIsFixed_[i] && c.cellRowPolarity_[i] == CellRowPolarity::ANY && trng.chance(0.5)) oo[i] = ALL8[trng.range(0, 7)];
+      c.setCellOrientation(oo);
+      r.count("callbacks_that_turned_cells");
+    }
   };
   bool ok = false;
   try {
@@ -104,8 +118,9 @@ static void c06Case(Rng &rng, CaseResult &r) {
       for (int i = 0; i < c.nbCells(); ++i) {
         if (c.cellIsFixed_[i]) continue;
         double bx = (1 - w) * Lx[i] + w * Ux[i], by = (1 - w) * Ly[i] + w * Uy[i];
-        if (std::fabs(c.cellX_[i] - bx) > tol || std::fabs(c.cellY_[i] - by) > tol) {
-          r.fail("C06:returned-placement-is-not-the-blend", "cell " + std::to_string(i) + " returned (" + std::to_string(c.cellX_[i]) + "," + std::to_string(c.cellY_[i]) + ") blend " + std::to_string(w) + " of last LB (" + std::to_string(Lx[i]) + "," + std::to_string(Ly[i]) + ") and last UB (" + std::to_string(Ux[i]) + "," + std::to_string(Uy[i]) + ") = (" + std::to_string(bx) + "," + std::to_string(by) + ") tolerance " + std::to_string(tol) + " | " + gdesc);
+        double rx = c.cellX_[i] + 0.5 * pW(c, i), ry = c.cellY_[i] + 0.5 * pH(c, i);
+        if (std::fabs(rx - bx) > tol + 0.5 || std::fabs(ry - by) > tol + 0.5) {
+          r.fail("C06:returned-placement-is-not-the-blend", "cell " + std::to_string(i) + " returned centre (" + std::to_string(rx) + "," + std::to_string(ry) + ") blend " + std::to_string(w) + " of last LB (" + std::to_string(Lx[i]) + "," + std::to_string(Ly[i]) + ") and last UB (" + std::to_string(Ux[i]) + "," + std::to_string(Uy[i]) + ") = (" + std::to_string(bx) + "," + std::to_string(by) + ") tolerance " + std::to_string(tol) + " | " + gdesc);
           break;
         }
       }
